@@ -43,6 +43,7 @@ type schedChild struct {
 	delivery   *schedEvent // parked delivery
 	stdinClose bool        // the interpreter has closed its stdin
 	byPrint    bool        // started by print | cmd
+	postEOF    bool        // the parked delivery was emitted after the child's slurp step (its stdin had reached EOF)
 }
 
 type c13Sched struct {
@@ -68,7 +69,10 @@ type c13Sched struct {
 	closeQ   []string
 	async    bool
 	overlaps []string
-	decided  int
+	// closeOverlaps: two commands started by print | were both past their end of input and both
+	// inside Config.Output.Write: their streams were not closed one after the other
+	closeOverlaps []string
+	decided       int
 }
 
 const c13LastOp = 1 << 20 // id of the end marker appended to scheduled programs
@@ -138,6 +142,19 @@ func (s *c13Sched) handle(ev schedEvent) {
 		}
 		owner.arrived += len(ev.data)
 		owner.delivery = &ev
+		owner.postEOF = false
+		for i, st := range owner.steps {
+			if st == "slurp" && owner.at > i {
+				owner.postEOF = true
+			}
+		}
+		if owner.postEOF && owner.byPrint {
+			for _, k2 := range s.kids {
+				if k2 != owner && k2.byPrint && k2.delivery != nil && k2.postEOF {
+					s.closeOverlaps = append(s.closeOverlaps, fmt.Sprintf("output that %s wrote after the end of its input arrived while output that %s wrote after the end of its input was inside Write", owner.name, k2.name))
+				}
+			}
+		}
 		if s.iState == "write" {
 			s.overlap(owner, "a delivery of child "+owner.name+" arrived while the program was inside Write")
 		}
@@ -541,4 +558,5 @@ func c13RunScheduled(sc *c13Scn, ops map[int]*c13Op, srv *core.ChildServer, sink
 	sink.Gate, sink.After = nil, nil
 	res.Sched = s.decided
 	res.SchedOverlaps = s.overlaps
+	res.SchedCloseOverlaps = s.closeOverlaps
 }
